@@ -935,7 +935,23 @@ impl Check for C19 {
         }
     }
     fn owns(&self, rule: &str) -> bool {
-        ["fault-panic", "fault-masked", "fault-callback-after", "fault-eof-verdict", "end", "fault-token"].contains(&rule)
+        // callback-args / callback-extra: under a fault the callbacks that do happen must still
+        // be a prefix of the fault-free history (missing ones are tolerated by the oracle); this
+        // also covers a tree that chooses to retry an interrupted operation
+        [
+            "fault-panic",
+            "fault-masked",
+            "fault-callback-after",
+            "fault-eof-verdict",
+            "end",
+            "fault-token",
+            "callback-args",
+            "callback-extra",
+            "param-value",
+            "param-type",
+            "param-count",
+        ]
+        .contains(&rule)
     }
     fn extra_judge(&self, plan: &Plan, out: &Outcome, vs: &mut Vec<Violation>) {
         let w = &out.w;
